@@ -176,13 +176,19 @@ func (f *FragmentBuffer) Pop() (content []byte, epoch uint16) {
 		return nil, 0
 	}
 
-	firstHeader := frags.fragmentByOffset[0].handshakeHeader
+	firstFragment, ok := frags.fragmentByOffset[0]
+	if !ok {
+		// An empty message whose only fragment claims a non-zero offset: nothing
+		// starts at offset 0, so there is nothing to surface (and nothing to dereference).
+		return nil, 0
+	}
+	firstHeader := firstFragment.handshakeHeader
 	firstHeader.FragmentOffset = 0
 	firstHeader.FragmentLength = firstHeader.Length
 
 	rawHeader, _ := firstHeader.Marshal()
 
-	messageEpoch := frags.fragmentByOffset[0].recordLayerHeader.Epoch
+	messageEpoch := firstFragment.recordLayerHeader.Epoch
 
 	f.totalBufferSize -= int(frags.fragmentsLength)
 	f.totalFragmentCount -= len(frags.fragmentByOffset)
